@@ -876,8 +876,8 @@ struct C06 : Property
 					ns = 1;
 				if (ns > 200)
 					ns = 200;
-				// an explicit resize must be able to hold the live entries (caller precondition of an open-addressing table)
-				if ((size_t)ns > model.size())
+				// (a size too small for the live entries is legal: the table grows again while it is refilled)
+				if (ns >= 1)
 				{
 					arm_faults(op, ctx);
 					int rc = LIB(lh_table_resize(t, ns));
